@@ -23,7 +23,7 @@ FROZEN = {
 def _run_base(ctx):
     repo, cg = ctx.repo, ctx.cg
     ctx.rule('R11.1', 'every differ returns a builder result (validated()), [], or the result of another differ: ordering/duplicate refusal live in one place', floor=9)
-    ctx.rule('R11.2', 'no empty nested patch: op_patch is reached only through the builders\' patch() under `if diff:`; push_patch_decision wraps only non-empty diffs', floor=4)
+    ctx.rule('R11.2', 'no empty nested patch: op_patch is reached only through the builders\' patch() under `if diff:`; push_patch_decision wraps only non-empty diffs', floor=3)
     ctx.rule('R11.5', 'a nested list patch is keyed by the base index of the item its sub-diff was computed from', floor=1)
     ctx.rule('R11.6', 'mapping diff entries are keyed by the iteration/lookup key itself, never by a transformed copy', floor=8)
     ctx.rule('R11.3', 'patches descend only into containers: recursion guarded by not is_atomic (and same type for dict values); is_atomic falls back to "not str/list/dict"', floor=3)
